@@ -172,6 +172,45 @@ mod rolling {
         run(sink, &data, &ops);
     }
 
+    /// A very long run: `slides` one-byte slides of a window of `wl` bytes over a generated stream, without a record
+    /// per slide.  At each checkpoint the bytes currently in the window are written as a "data" line followed by a
+    /// "new" event carrying what the ROLLED checksums report - RollingTrace's New compares exactly that with the
+    /// definition over those bytes ("equals the digest obtained by constructing the checksum directly from the bytes
+    /// currently in the window").
+    pub fn marathon(sink: &mut Sink, wl: usize, slides: usize, every: usize, byte_at: &dyn Fn(usize) -> u8) {
+        sink.rotate();
+        sink.runs += 1;
+        let first: Vec<u8> = (0..wl).map(byte_at).collect();
+        let mut win: std::collections::VecDeque<u8> = first.iter().copied().collect();
+        let mut p = RollingChecksum::new(&first);
+        let mut f = FastRollingChecksum::new(&first);
+        let mut done = 0usize;
+        while done < slides {
+            let chunk = every.min(slides - done);
+            let r = catch_unwind(AssertUnwindSafe(|| {
+                for k in 0..chunk {
+                    let newb = byte_at(wl + done + k);
+                    let old = win.pop_front().unwrap();
+                    win.push_back(newb);
+                    p.roll(old, newb);
+                    f.roll(old, newb);
+                }
+            }));
+            done += chunk;
+            let bytes: Vec<u8> = win.iter().copied().collect();
+            sink.emit(json!({"ev":"data","bytes":bytes,"after_slides":done}));
+            match r {
+                Ok(()) => {
+                    let (po, fo, pa, pb) = obs(&p, &f);
+                    if po != fo { sink.disagreements += 1; }
+                    sink.emit(json!({"ev":"new","s":0,"n":wl,"p":po,"f":fo,"pa":pa,"pb":pb}));
+                }
+                Err(_) => { sink.emit(json!({"ev":"panic","op":"r"})); break; }
+            }
+        }
+        sink.rotate();
+    }
+
     pub fn gen_data(rng: &mut StdRng, class: usize, len: usize) -> Vec<u8> {
         match class {
             0 => vec![0u8; len],
@@ -260,6 +299,11 @@ fn cmd_rolling(args: &[String]) {
         }
         rolling::run(&mut sink, &data, &ok);
     }
+    // (4) marathons: tens of millions of consecutive slides (what a delta scan does over tens of MiB of new data)
+    let mseed: u64 = rng.gen();
+    rolling::marathon(&mut sink, 65536, if thorough { 70_000_000 } else { 30_000_000 }, 10_000_000, &|_| 0xff);
+    rolling::marathon(&mut sink, 2048, if thorough { 40_000_000 } else { 26_000_000 }, 13_000_000,
+                      &|i| { let x = (i as u64).wrapping_mul(0x9E37_79B9_7F4A_7C15).wrapping_add(mseed); 0xe0 | ((x >> 40) as u8 & 0x1f) });
     sink.finish();
     println!("{}", json!({"files": sink.files, "events": sink.events, "runs": sink.runs, "literal_runs": literal_runs,
         "replicated_runs": replicated_runs, "long_runs": nlong, "plain_fast_disagreements": sink.disagreements}));
@@ -648,6 +692,14 @@ fn cmd_delta_large(args: &[String]) {
             let mut src: Vec<u8> = (0..pre).map(|_| rng.gen()).collect();
             src.extend_from_slice(&base);
             jobs.push((format!("slides={pre}"), base, src, r, true, false, pre as i64));
+        }
+        // tens of millions of consecutive slides before the first match (24 MiB of new, high-valued data in front of a
+        // known tail): thorough only - the rolling registers must survive it (C17's marathons watch the same in quick)
+        if thorough && (r == 2048 || r == 65536) {
+            let base = deltal::distinct_blocks(&mut rng, 3, r, 0);
+            let mut src: Vec<u8> = (0..25_200_000usize).map(|_| 0xe0 | (rng.gen::<u8>() & 0x1f)).collect();
+            src.extend_from_slice(&base);
+            jobs.push(("slides=25200000".to_string(), base, src, r, true, false, 25_200_000));
         }
         // repeated blocks / constant files
         for &byte in &[0u8, 0xff] {
